@@ -6,6 +6,11 @@ Stream "validate" (syntax: ocaml/drv_validate.ml):
   Q  the public query_nameserver end to end over the in-memory transport (hook H3): header gate,
      UDP-then-TCP, 512-octet receive buffer, time-outs
 
+Stream "resolver" (hook `extra`; syntax: ocaml/drv_resolver.ml), second half of this file: the whole
+recursive resolver against universes in which the servers of one zone answer one question with a
+referral that makes no progress (same depth / upward / sideways, fresh host names + glue): what the V
+op cannot see, because it is handed the depth of the delegation in use instead of computing it.
+
 The oracle evaluates the property text on the implementation's output alone: every record of an
 accepted reply must be `allowed` (DESIGN C06), the answer must be the CNAME chain from the question
 name in order followed by records at the final name, a referral must be strictly deeper than the
@@ -29,7 +34,17 @@ RULE = ("cases: replies to a question at depth 1..7 with delegation depth (match
         "owned by ancestors / non-ancestors / too-shallow names, unknown types and classes, every query type incl. CNAME, "
         "NS, ANY, AXFR; header-gate cases: wrong id, QR clear, other opcode, TC, rcodes 0..5, question changed / absent / "
         "duplicated, cut and raw datagrams, >512-octet replies, late and missing replies over UDP and TCP; "
-        "non-trivial = distinct case line whose reply has at least two records (V, S) or at least one reply (Q)")
+        "non-trivial = distinct case line whose reply has at least two records (V, S) or at least one reply (Q).  "
+        "Resolver stream (counted in `extra`): a generated universe (root + 1..4 nested zones, 1..2 nameservers per zone, in / "
+        "sibling / out-of-bailiwick names, glue or not) x one question whose reply from every server of ONE zone on the path "
+        "(the root, a zone in the middle, the last zone) is replaced by a referral that is not strictly deeper than the "
+        "delegation in use: NS records owned by that very zone (same), by a zone above it (up), by a name beside the path "
+        "(side), in the authority section, the answer section or both, naming 1..2 fresh hosts outside every zone or inside "
+        "the zone in use, with A / AAAA glue at fresh addresses behind which nobody listens (silent), a server with a forged "
+        "answer listens (answer), a server repeating the referral listens (loop), or naming the zone's real servers again "
+        "(selfloop); delegation in use taken from the root hints, from a referral followed in the same resolution (cold) or "
+        "from the cache after an earlier question (warm); 4 protocol modes; every (level, direction, behind, cold/warm) once "
+        "on fixed universes first; non-trivial = distinct case in which the model's log shows the doctored referral delivered")
 ASSUMPTIONS = [
     "the reply handed to the filter is a decoded Message: names are lower-case, well-formed DomainName values (C03/C16)",
     "HashSet iteration order of Delegation.hostnames is not modelled: both sides sort the host names before printing; "
@@ -43,9 +58,16 @@ ASSUMPTIONS = [
     "than the body is exercised; several writes / slow streams are not (C08/C09)",
     "only_validated_is_cached (every insert_all argument of the recursive resolver comes from a validated reply) is a "
     "theorem about the recursive resolver model, not of this file",
+    "resolver stream: what the other servers say is Universe.serve (tabulated per case); the doctored replies are encoded by "
+    "vlib/wiregen.py (no compression); candidate order is the sorted one of hook H5; the clock is fixed during a case; the "
+    "repeating-referral cases delay every exchange by 400 ms of virtual time so that a resolver that follows the referral "
+    "runs into its 60 s budget instead of spinning; the oracle expects a dead end for the doctored question because EVERY "
+    "server of the zone in use gives the doctored reply (a resolver that tried the zone's other servers would meet the same)",
 ]
 TRUSTED = ["hooks H3/H4 in /repo under cfg(resolved_verif): verif::net (in-memory UdpSocket/TcpStream) and the one-line "
-           "public wrapper verif_validate_nameserver_response"]
+           "public wrapper verif_validate_nameserver_response",
+           "resolver stream: hook H5 (sorted candidate order) and the mock handler of harness/src/resolver.rs (mirrors "
+           "Universe.reply_of / table_oracle)"]
 
 A, NS, CNAME, SOA, MX, TXT, AAAA, ANY = tok.A, tok.NS, tok.CNAME, tok.SOA, tok.MX, tok.TXT, tok.AAAA, tok.ANY
 IN = 1
@@ -847,3 +869,289 @@ def nontrivial(case, out):
     if toks[1] == "Q":
         return toks[3] != "none" or toks[4] not in ("none", "refuse")
     return sum(0 if t == "_" else t.count(";") + 1 for t in toks[5:8]) >= 2
+
+
+# --------------------------------------------------------------------------
+# resolver stream (hook `extra`): non-progressing referrals through the resolver LOOP
+#
+# The V op hands the filter an explicit match_count, so it cannot see how resolve_recursive COMPUTES the depth of
+# the delegation in use (Nameservers::match_count, taken from root hints, from a cached NS set or from the referral
+# just followed).  These cases run the whole recursive resolver (drivers of the `resolver` stream, syntax:
+# ocaml/drv_resolver.ml) against a generated universe in which the reply of the servers of ONE zone on the path to
+# ONE question is replaced by a referral that makes no progress:
+#    same   NS records owned by the very zone the server was reached through
+#    up     NS records owned by a zone above it
+#    side   NS records owned by a name that is no ancestor of the question name
+# naming fresh hosts (outside every zone, or inside the zone in use) with glue addresses nobody else has; at the
+# root, in the middle of the chain and at the last zone; the delegation in use coming from the root hints, from a
+# referral followed in the same resolution (cold) or from the cache (warm); the NS records in the authority or in
+# the answer section.  Behind the fresh addresses: nobody (silent), a server with a forged answer (answer), a
+# server repeating the referral (loop); `selfloop` = a same-depth referral naming the zone's REAL servers again.
+# Oracle, on the implementation's output alone: nothing of the referral reaches the cache or an answer, no exchange
+# goes to an address learnt only from it, the zone's servers are not asked the same question again, and the question
+# ends as a dead end (every server that could make progress has refused to) -- not as an answer, not by running
+# out of the 60 s budget.
+# --------------------------------------------------------------------------
+
+RES_MODES = {"r4": ("4", "46"), "rp4": ("4", "6", "46"), "rp6": ("4", "6", "46"), "r6": ("6", "46")}
+FORGED = 0x06060606
+
+
+def wire_reply(q, an=(), au=(), ad=(), aa=0, rcode=0):
+    from . import wiregen
+    return wiregen.encode(((0, 1, 0, aa, 0, 0, 0, rcode), (q,), tuple(an), tuple(au), tuple(ad)), mode="none").hex()
+
+
+def ip_rr(host, iptok, ttl=3600):
+    """address record for an ip token of the resolver stream (a<u32> | q<32 hex digits>)"""
+    if iptok[0] == "a":
+        return rr(host, A, ("a", int(iptok[1:])), ttl)
+    return rr(host, AAAA, ("q", bytes.fromhex(iptok[1:])), ttl)
+
+
+def nonprog_builder(rng, batch, seed_u, mode, level, direction, behind, warm, section, fresh_style, qchoice=0, tag="gen"):
+    """one resolver-stream case; -> CaseBuilder | None when the combination does not exist in this universe"""
+    from . import resolvergen as rg
+    u = seed_u
+    path = ["."] + u.chain
+    L = {"root": 0, "last": len(path) - 1}.get(level)
+    if L is None:
+        if len(path) < 3:
+            return None
+        L = 1 + (qchoice % (len(path) - 2))
+    zone_l = path[L]
+    last = path[-1]
+    qn, qt = [("www." + last, A), ("txt." + last, TXT), ("nx." + last, A), ("alias." + last, A), ("mail." + last, MX)][qchoice % 5]
+    if direction == "up":
+        if L == 0:
+            return None
+        owner = path[(qchoice // 2) % L]
+    elif direction == "side":
+        owner = "elsewhere." if L == 0 else "beside-%d.%s" % (L, path[L - 1] if path[L - 1] != "." else "")
+    else:
+        owner = zone_l
+    zl_ips = [ip for ip, apexes in u.servers.items() if zone_l in apexes]
+    fams = {"r4": "4", "r6": "6"}.get(mode, "46")
+    k = 1 + (qchoice % 2)
+    evil, fresh, glue, nsrrs = [], [], [], []
+    base = 0x4200 + 16 * rng.randint(0, 200)
+    if behind == "selfloop":
+        # the zone's real servers, named again by a referral for the zone itself
+        z = u.zones[zone_l]
+        for h in z.ns:
+            nsrrs.append(rr_ns(nm(owner), nm(h), 3600))
+            for ip in u.hosts.get(h, []):
+                glue.append(ip_rr(nm(h), ip))
+    else:
+        for i in range(k):
+            host = ("ns%d.intruder-%d." % (i + 1, base)) if fresh_style == "out" else ("fresh%d-%d.%s" % (i + 1, base, zone_l if zone_l != "." else ""))
+            fresh.append(host)
+            nsrrs.append(rr_ns(nm(owner), nm(host), rng.choice([300, 3600, 172800])))
+            for f in fams:
+                ip = rg.v4(0x0A000000 + base + 2 * i) if f == "4" else rg.v6(0x660000 + base + 2 * i + 1)
+                evil.append(ip)
+                glue.append(ip_rr(nm(host), ip))
+    q = (nm(qn), qt, IN)
+    an, au = (nsrrs, []) if section == "answer" else ([], nsrrs) if section == "authority" else (nsrrs[:1], nsrrs)
+    doctored = wire_reply(q, an=an, au=au, ad=glue)
+    qtok = mt.qtok(q)
+    prefix = ["%s=%s=%s" % (",".join(zl_ips), qtok, doctored)]
+    forged = []
+    if behind == "answer" and evil:
+        forged = [rg.v4(FORGED)]
+        data = {A: ("a", FORGED), TXT: ("o", b"\x06forged"), MX: ("x", 6, nm(qn))}[qt]
+        prefix.append("%s=%s=%s" % (",".join(evil), qtok, wire_reply(q, an=[rr(nm(qn), qt, data)], aa=1)))
+    elif behind == "loop" and evil:
+        prefix.append("%s=%s=%s" % (",".join(evil), qtok, doctored))
+    questions = []
+    if warm and L > 0:
+        questions.append(("a.ent." + zone_l, A))          # leaves the delegation of zone_l in the cache
+    questions.append((qn, qt))
+    # a repeating referral followed by mistake must cost virtual time, or the 60 s budget never ends it
+    # (150 exchanges of 400 ms use it up; the plan covers the exchanges before them as well)
+    faults = rg.fault_plan({n: "delay400" for n in range(420)}) if behind in ("loop", "selfloop") else "_"
+    flags = {"kind": "%s:%s:%s:%s:%s" % (tag, level, direction, behind, "warm" if warm and L > 0 else "cold"),
+             "ff": "0", "dq": str(len(questions) - 1), "zl": ",".join(zl_ips), "evil": ",".join(evil + forged) or "-",
+             "fresh": ",".join(mt.nametok(nm(h)) for h in fresh) or "-", "sec": section}
+    b = rg.CaseBuilder(batch, u, mode, 53, questions, faults=faults, flags=flags)
+    b.table_prefix = prefix
+    return b
+
+
+def nonprog_universe(rng, mode, depth=None):
+    from . import resolvergen as rg
+    return rg.gen_universe(rng, depth=depth or rng.choice([2, 2, 3, 3, 4]), provider=rng.random() < 0.3, fams=RES_MODES[mode],
+                           max_ns=2)
+
+
+def resolver_cases(rng, tier):
+    import random
+    from . import resolvergen as rg
+    batch = rg.Batch()
+    builders = []
+    modes = sorted(RES_MODES)
+    # corpus: every (level, direction, behind, warm) once, on fixed universes, modes and sections in rotation
+    i = 0
+    for level in ("root", "mid", "last"):
+        for direction in ("same", "up", "side"):
+            for behind in ("silent", "answer", "loop", "selfloop"):
+                if behind == "selfloop" and direction != "same":
+                    continue
+                for warm in (False, True):
+                    if warm and level == "root":
+                        continue
+                    mode = modes[i % 4]
+                    r = random.Random(600 + i)
+                    u = nonprog_universe(r, mode, depth=[3, 2, 4][i % 3] if level == "mid" else [2, 1, 3][i % 3])
+                    b = nonprog_builder(r, batch, u, mode, level, direction, behind, warm, ("authority", "answer", "both")[i % 3],
+                                        ("out", "in")[(i // 3) % 2], qchoice=i, tag="corpus")
+                    i += 1
+                    if b is not None:
+                        builders.append(b)
+    n = 160 if tier == "quick" else 4000
+    for j in range(n):
+        mode = rng.choice(modes)
+        u = nonprog_universe(rng, mode)
+        direction = rng.choice(["same", "same", "same", "up", "side"])
+        behind = rng.choice(["silent", "answer", "loop"] + (["selfloop"] if direction == "same" else []))
+        b = nonprog_builder(rng, batch, u, mode, rng.choice(["root", "mid", "mid", "last", "last"]), direction, behind,
+                            rng.random() < 0.5, rng.choice(["authority", "authority", "answer", "both"]), rng.choice(["out", "in"]),
+                            qchoice=rng.randint(0, 59))
+        if b is not None:
+            builders.append(b)
+    outs = batch.run()
+    return [b.line(outs) for b in builders]
+
+
+def nonprog_oracle(case, impl):
+    """-> None | (class, text): the sentences of the header comment on the implementation's output"""
+    from . import resolvergen as rg
+    if impl == "Panic":
+        return ("panic", "the resolver panicked")
+    try:
+        c = rg.Case(case)
+        parsed = rg.parse_result(impl)
+        if parsed is None:
+            return None
+        results, cache = parsed
+        evil = set(c.flags["evil"].split(",")) - {"-"}
+        fresh = set(c.flags["fresh"].split(",")) - {"-"}
+        zl = set(c.flags["zl"].split(","))
+        dq = int(c.flags["dq"])
+        kindtxt = c.flags.get("kind", "?")
+
+        def poisoned(name, data):
+            return name in fresh or data in evil or (data[0] == "n" and data[1:] in fresh)
+        if cache != "_":
+            for e in cache.split("+"):
+                name, typ, vals = e.split("=")
+                for v in vals.split("&"):
+                    if poisoned(name, v.rsplit("@", 1)[0]):
+                        return ("non-progressing-referral-cached",
+                                "[%s] a record of a referral that is not deeper than the delegation in use is in the cache: %s type %s %s"
+                                % (kindtxt, rg.tokname(name), typ, v))
+        for (qn, qt, qc), r in zip(c.questions, results):
+            for x in r.rrs:
+                p = tok.parse_rr(x)
+                if poisoned(p["name"], p["data"]):
+                    return ("non-progressing-referral-used", "[%s] %s type %d is answered with %s, which only a server reached through "
+                            "a referral that is not deeper than the delegation in use supplied (or that referral itself)" % (kindtxt, rg.tokname(qn), qt, x))
+            for e in r.log:
+                if e.ip in evil:
+                    return ("non-progressing-referral-followed", "[%s] %s type %d: exchange %d goes to %s, an address only a referral that is "
+                            "not deeper than the delegation in use named" % (kindtxt, rg.tokname(qn), qt, e.n, e.ip))
+        if dq < len(results):
+            (qn, qt, qc), r = c.questions[dq], results[dq]
+            again = {}
+            for e in r.log:
+                if e.kind == "U" and e.ip in zl and (e.qname, e.qtype) == (qn, qt):
+                    again[e.ip] = again.get(e.ip, 0) + 1
+            if any(v > 1 for v in again.values()):
+                return ("non-progressing-referral-loop", "[%s] %s type %d: a server of the zone in use is asked the same question %d times: its "
+                        "referral to its own zone is followed" % (kindtxt, rg.tokname(qn), qt, max(again.values())))
+            if again:
+                # the doctored reply was delivered: nobody that could make progress is left
+                if r.kind == "E" and r.error.startswith("timeout"):
+                    return ("non-progressing-referral-loop", "[%s] %s type %d ran out of the 60 s budget" % (kindtxt, rg.tokname(qn), qt))
+                if r.kind in ("A", "N", "X"):
+                    return ("non-progressing-referral-used", "[%s] %s type %d is answered (%s) although every server of the zone in use "
+                            "only offered a referral that makes no progress" % (kindtxt, rg.tokname(qn), qt, r.raw[:80]))
+    except Exception:      # malformed output is a correspondence matter
+        return None
+    return None
+
+
+def nonprog_delivered(case, out):
+    """the doctored reply was delivered to the resolver (model's or implementation's log)"""
+    from . import resolvergen as rg
+    try:
+        c = rg.Case(case)
+        p = rg.parse_result(out)
+        dq = int(c.flags["dq"])
+        zl = set(c.flags["zl"].split(","))
+        qn, qt, _ = c.questions[dq]
+        return p is not None and any(e.kind == "U" and e.ip in zl and (e.qname, e.qtype) == (qn, qt) for e in p[0][dq].log)
+    except Exception:
+        return False
+
+
+def extra(ctx):
+    """-> (failures, info): the resolver-stream cases above on both drivers of the `resolver` stream"""
+    import random
+    from . import core, netgen
+    from . import resolvergen as rg
+    info = {"stream": "resolver (non-progressing referrals through resolve_recursive)", "evaluations": 0, "distinct_nontrivial": 0,
+            "rule": "non-trivial = distinct case in which, according to the model, the doctored referral was delivered to the resolver"}
+    ok, out = (True, "up to date") if netgen.model_driver_fresh("resolver", netgen.ML_EXTRA) else core.build_model_driver("resolver", netgen.ML_EXTRA)
+    if not ok:
+        return [core.Failure("resolver-model-build", "model driver `resolver` failed to build: " + core.trunc(out[-800:], 800), found_input=False)], info
+    ok, out = core.build_impl_driver("resolver")
+    if not ok:
+        return [core.Failure("resolver-impl-build", "harness driver `resolver` failed to build against /repo: " + core.trunc(out[-1500:], 1500),
+                             found_input=False)], info
+    rng = random.Random(ctx["seed"] * 1000003 + 6 * 7919 + 11)
+    cases = resolver_cases(rng, ctx["tier"])
+    mouts = netgen.run_past_deaths(core.model_driver_path("resolver"), cases, ctx["run_dir"], "np-model")
+    iouts = netgen.run_past_deaths(core.impl_driver_path("resolver"), cases, ctx["run_dir"], "np-impl")
+    failures, dist, results, byclass, seen = [], {}, {}, {}, set()
+    disagreements = delivered_impl = not_run = 0
+    for c, mo, io in zip(cases, mouts, iouts):
+        info["evaluations"] += 1
+        if c not in seen:
+            seen.add(c)
+            if nonprog_delivered(c, mo):
+                info["distinct_nontrivial"] += 1
+        k = netgen.kind_of(c)
+        dist[k] = dist.get(k, 0) + 1
+        if io.startswith("DRIVER-DIED-AFTER") or mo.startswith("DRIVER-DIED-AFTER"):
+            not_run += 1
+            continue
+        if nonprog_delivered(c, io):
+            delivered_impl += 1
+        try:
+            p = rg.parse_result(io)
+        except Exception:
+            p = None
+        if p:
+            for r in p[0]:
+                rk = r.kind + (":" + r.error.split(":")[0] if r.kind == "E" else "")
+                results[rk] = results.get(rk, 0) + 1
+        f = nonprog_oracle(c, io)
+        if f is None and io.startswith("DRIVER-DIED"):
+            f = ("non-progressing-referral-loop", "the resolution did not complete (driver died or hung)")
+        if f is not None:
+            byclass[f[0]] = byclass.get(f[0], 0) + 1
+            if byclass[f[0]] <= 20:
+                failures.append(core.Failure(f[0], f[1] + "  [replay: feed the case line to build/target/debug/impl_resolver]", c, io, mo))
+        elif mo != io:
+            disagreements += 1
+            if disagreements <= 10:
+                failures.append(core.Failure("resolver-correspondence",
+                                             "model and implementation disagree on a non-progressing-referral case (resolver stream); no property "
+                                             "failure found on it  [replay: feed the case line to build/model_resolver and "
+                                             "build/target/debug/impl_resolver]", c, io, mo, found_input=False))
+    info.update({"disagreements": disagreements, "not_run_behind_a_driver_death": not_run, "doctored_reply_delivered_impl": delivered_impl,
+                 "results": dict(sorted(results.items())), "oracle_failures_by_class": dict(sorted(byclass.items())),
+                 "distribution": dict(sorted(dist.items())),
+                 "sample": {"case": core.trunc(cases[0], 300), "impl": core.trunc(iouts[0], 300)} if cases else {}})
+    return failures, info
